@@ -112,8 +112,28 @@ func TestC15FindLookups(t *testing.T) {
 		}
 		nls := rapid.OneOf(rapid.IntRange(1, 4), rapid.IntRange(1, 20)).Draw(t, "nLangSys")
 		var keys []language.Tag
-		for i := 0; i < nls; i++ {
-			e := all[rapid.IntRange(0, len(all)-1).Draw(t, "lsTag")]
+		// families of tags that agree in language, script and region and differ
+		// only in the private-use part (both generations of an Indic script:
+		// und-Deva-x-deva / und-Deva-x-dev2, two OpenType language tags of one
+		// language): a quarter of the cases start with two or three members of
+		// one family
+		var familyPick []int
+		if rapid.IntRange(0, 3).Draw(t, "tagFamily") == 0 {
+			fam := tagFamilies(all)
+			f := fam[rapid.IntRange(0, len(fam)-1).Draw(t, "family")]
+			for _, idx := range rapid.Permutation(f).Draw(t, "familyOrder") {
+				if len(familyPick) < 3 {
+					familyPick = append(familyPick, idx)
+				}
+			}
+		}
+		for i := 0; i < nls || i < len(familyPick); i++ {
+			var e lookups.TagEntry
+			if i < len(familyPick) {
+				e = all[familyPick[i]]
+			} else {
+				e = all[rapid.IntRange(0, len(all)-1).Draw(t, "lsTag")]
+			}
 			if _, ok := info.ScriptList[e.Tag]; ok {
 				continue
 			}
@@ -237,6 +257,32 @@ func TestC15FindLookups(t *testing.T) {
 		}
 		stats.CaseIn("findlookups", stats.Hash(ctx()), len(keys) >= 2 && len(distinctAnswers) >= 2, func() string { return ctx() + fmt.Sprintf(" -> %v", got) }, labels...)
 	})
+}
+
+// tagFamilies groups the indices of tags that have the same language, script
+// and region (families with at least two members).
+var tagFamiliesCache [][]int
+
+func tagFamilies(all []lookups.TagEntry) [][]int {
+	if tagFamiliesCache != nil {
+		return tagFamiliesCache
+	}
+	groups := map[string][]int{}
+	var order []string
+	for i, e := range all {
+		b, sc, r := e.Tag.Raw()
+		k := b.String() + "-" + sc.String() + "-" + r.String()
+		if _, ok := groups[k]; !ok {
+			order = append(order, k)
+		}
+		groups[k] = append(groups[k], i)
+	}
+	for _, k := range order {
+		if len(groups[k]) >= 2 {
+			tagFamiliesCache = append(tagFamiliesCache, groups[k])
+		}
+	}
+	return tagFamiliesCache
 }
 
 // ---- whole pipeline ----------------------------------------------------------
